@@ -3699,27 +3699,85 @@ def build_named_record(nc, names, length, name='node', tag='', first=True, space
     return this, vals, lens
 
 
+def key_position(names, key):
+    """what a key means for a record array with these field names: the position of the field of that name, else the position it spells the
+    way tuple fields are named ("0", "1", ...: std::to_string of the position), else nothing"""
+    names = list(names)
+    if key in names:
+        return names.index(key)
+    for i in range(len(names)):
+        if key == str(i):
+            return i
+    return None
+
+
+KEY_DRIVER = r"""
+#include <cstdio>
+#include <cstring>
+#include <string>
+#include <vector>
+#include <memory>
+#include <stdexcept>
+#include "awkward/Index.h"
+#include "awkward/Identities.h"
+#include "awkward/array/NumpyArray.h"
+#include "awkward/array/RecordArray.h"
+using namespace awkward;
+int main(int argc, char** argv) {
+  // argv: key, expected position (-1: not a field), field names...
+  std::string key(argv[1]);
+  long want = atol(argv[2]);
+  int nf = argc - 3;
+  ContentPtrVec contents;
+  util::RecordLookupPtr lookup = std::make_shared<util::RecordLookup>();
+  for (int k = 0; k < nf; k++) {
+    Index64 v(2);
+    v.setitem_at_nowrap(0, 100 * k); v.setitem_at_nowrap(1, 100 * k + 1);
+    contents.push_back(std::make_shared<NumpyArray>(v));
+    lookup.get()->push_back(std::string(argv[3 + k]));
+  }
+  RecordArray rec(Identities::none(), util::Parameters(), contents, lookup, 2);
+  long got = -1; int has = -1; std::string how;
+  try { has = rec.haskey(key) ? 1 : 0; }
+  catch (std::exception& e) { how += std::string(" haskey raises: ") + e.what(); }
+  catch (...) { how += " haskey raises"; }
+  try {
+    ContentPtr f = rec.field(key);
+    got = (long)(*reinterpret_cast<int64_t*>(dynamic_cast<NumpyArray*>(f.get())->data())) / 100;
+  }
+  catch (std::invalid_argument& e) { got = -1; }
+  catch (std::exception& e) { got = -2; how += std::string(" field raises something other than invalid_argument: ") + e.what(); }
+  long fi = -1;
+  try { fi = (long)rec.fieldindex(key); } catch (...) { fi = -1; }
+  printf("field=%ld fieldindex=%ld haskey=%d%s\n", got, fi, has, how.c_str());
+  return (got == want && fi == want && has == (want >= 0 ? 1 : 0)) ? 0 : 1;
+}
+"""
+
+
 @guard
 def h_record_field_key(names, key):
-    """RecordArray::field(key): the content stored under that name, whatever its position; a name that is not a field is read as a position
-    when it is a number in range, and refused otherwise"""
+    """RecordArray::field(key) / fieldindex(key) / haskey(key): the content stored under that name, whatever its position; a key that is not a
+    field name is a position only when it spells one in range the way tuple fields are named ("0", "1", ...) and is refused (std::invalid_argument;
+    haskey answers false and never raises) otherwise - also when it merely starts with a number, or spells one too large for any integer type"""
     names = tuple(names)
     nc = NodeCtx(['REC', 'IA', 'IDX', 'CNT', 'UTL', 'KD', 'IDS'], [], unwind=max(14, 2 * len(names) + 10))
     nc.m.eng.stubs.update(string_stubs(nc))
+    nc.m.eng.stubs['_ZNSt7__cxx119to_stringEl'] = s_to_string
+    nc.m.eng.stubs['_ZNSt7__cxx119to_stringEi'] = s_to_string
+    nc.m.eng.stubs['_ZNSt7__cxx1112basic_stringIcSt11char_traitsIcESaIcEE12_M_constructEmc'] = s_string_fill
     this, vals, lens = build_named_record(nc, names, 2)
     cells = {}
     _string_cells(cells, 0, 'key', key)
     kp = nc.m.record('key', cells, const=True)
     nc.m.record('ret', {})
     out = nc.m.call('_ZNK7awkward11RecordArray5fieldERKNSt7__cxx1112basic_stringIcSt11char_traitsIcESaIcEEE', [Ptr('ret', 0), this, kp])
-    if key in names:
-        want = names.index(key)
-    else:
-        try:
-            want = int(key) if 0 <= int(key) < len(names) else None
-        except ValueError:
-            want = None
+    want = key_position(names, key)
     obls = [('raises exactly when the name is neither a field nor a position in range', z3.simplify(out.raised) != z3.BoolVal(want is None))]
+    if want is None:
+        ty = out.mem.o.get('exc!type')
+        if ty is not None:
+            obls.append(('a key that is not a field is refused with std::invalid_argument', z3.And(out.raised, ty.cells[0][0] != nc.m.eng.typeid_of('_ZTISt16invalid_argument'))))
     if want is not None:
         res = decode(nc, out.mem, nc.m.cell('ret', 0))
         BASE = 1 << 32
@@ -3727,7 +3785,30 @@ def h_record_field_key(names, key):
             obls.append(('the field content itself is returned', z3.BoolVal(True)))
         else:
             obls.append(('the content stored under that name is returned', z3.Select(res['atoms'], BV(0)) != BV(want * BASE)))
-    return mdischarge(nc.m, 'RecordArray%s::field("%s")' % (list(names), key), obls, [], replay=None, extra=dict(bounds='field names and key concrete (case split)'))
+    o2 = nc.m.call('_ZNK7awkward11RecordArray10fieldindexERKNSt7__cxx1112basic_stringIcSt11char_traitsIcESaIcEEE', [this, kp])
+    obls.append(('fieldindex raises exactly when the key is not a field', z3.simplify(o2.raised) != z3.BoolVal(want is None)))
+    if want is not None:
+        obls.append(('fieldindex is the position of that field', z3.And(z3.Not(o2.raised), o2.ret != want)))
+    o3 = nc.m.call('_ZNK7awkward11RecordArray6haskeyERKNSt7__cxx1112basic_stringIcSt11char_traitsIcESaIcEEE', [this, kp])
+    obls.append(('haskey never raises', o3.raised))
+    if o3.ret is not None:
+        r3 = o3.ret if o3.ret.size() == 1 else z3.Extract(0, 0, o3.ret)
+        obls.append(('haskey is %s' % (want is not None), z3.And(z3.Not(o3.raised), (r3 == 1) != z3.BoolVal(want is not None))))
+
+    def replay(model, ent):
+        try:
+            exe = fullnative.link_driver(KEY_DRIVER, 'reckey')
+        except Exception as e:      # noqa
+            return False, 'replay driver did not build: %s' % str(e)[-400:], {}
+        import subprocess, os
+        r = subprocess.run([exe, key, str(-1 if want is None else want)] + list(names), capture_output=True, text=True, timeout=30,
+                           env=dict(os.environ, ASAN_OPTIONS='detect_leaks=0'), errors='replace')
+        payload = dict(names=list(names), key=key, expected_position=want, native=r.stdout.strip())
+        if r.returncode != 0:
+            return True, 'record array %s asked for the key %r (a field: %s): native %s' % (list(names), key, want, r.stdout.strip() or r.stderr[-200:]), payload
+        return False, 'native agrees (%s)' % r.stdout.strip(), payload
+    return mdischarge(nc.m, 'RecordArray%s::field / fieldindex / haskey ("%s")' % (list(names), key), obls, [], replay=replay,
+                      extra=dict(bounds='field names and key concrete (case split)'))
 
 
 @guard
@@ -3787,7 +3868,9 @@ def h_record_mergemany_named(names_a, names_b, la, lb):
 
 
 def jobs_record_named(tier):
-    js = [(h_record_field_key, a, 900) for a in [(('a', 'b', 'c'), 'b'), (('x', 'y'), '1'), (('x', 'y'), 'q'), (('x', 'y'), '7'), (('ab', 'a'), 'a')]]
+    js = [(h_record_field_key, a, 900) for a in [(('a', 'b', 'c'), 'b'), (('x', 'y'), '1'), (('x', 'y'), 'q'), (('x', 'y'), '7'), (('ab', 'a'), 'a'),
+                                                 (('x', 'y', 'z'), '1abc'), (('x', 'y'), ' 1'), (('x', 'y'), '+1'), (('x', 'y'), '01'), (('x', 'y'), '-0'),
+                                                 (('x', 'y'), '99999999999'), (('1', '0'), '1'), (('x', 'y'), '')]]
     q = [(('x', 'y'), ('y', 'x'), 1, 2), (('a', 'b'), ('a', 'b'), 2, 1), (('a', 'b'), ('a', 'c'), 1, 1)]
     if tier != 'quick':
         q += [(('a', 'b', 'c'), ('c', 'a', 'b'), 1, 1), (('k',), ('k',), 0, 2), (('a', 'b'), ('b',), 1, 1)]
